@@ -137,7 +137,7 @@ def gen_restraint(r, k, T):
     conf = cfg + B
     if "periodic" not in tags and r.random() < 0.2:
         # all lengths 2^27 (1.3e8) or 2^-27 (7.5e-9) times larger: widths, centres, walls, positions (energies unchanged)
-        S = 2.0 ** r.choice([-27, 27])
+        S = 2.0 ** r.choice([-13, 27])     # (2^-27 makes forces of 1e8 with absolute errors above the comparison tolerance)
         tags.append("scale=%g" % S)
 
         def sc(line):
@@ -342,19 +342,33 @@ def gen_alb(r, k, T):
     tags = ["alb", "freq=%d" % uf]
     M = {"center": cen, "width": w, "freq": uf // 2, "kT": temp * KB, "range0": rng, "maxrate": rng / (10.0 * float(uf // 2)),
          "hard": True, "k0": 0.0}
-    if r.random() < 0.3:
-        B.append("  hardForceRange off")
-        M["hard"] = False
-        tags.append("soft-range")
-    if r.random() < 0.3:
-        k0 = r.choice([0.5, -0.25, 1.0])
-        B.append("  forceConstant %r" % k0)
-        M["k0"] = k0
-        tags.append("k0")
-    if r.random() < 0.3:
-        mr = r.choice([0.125, 0.03125])
-        B.append("  rateMax %r" % mr)
-        M["maxrate"] = mr
+    if k < 2 or r.random() < 0.15:
+        # the range is run-time data: hardForceRange off, a small explicit forceRange, a set point beyond it that the
+        # ramp reaches within a few steps: maxCouplingRange grows by 1.25 per step while the coupling exceeds it,
+        # and the next update of the set point (a few steps later) uses the grown value
+        uf = r.choice([4, 6]) if k < 2 else uf
+        rng = r.choice([0.25, 0.125])
+        k0 = r.choice([1.0, -1.0, 0.75])
+        mr = r.choice([0.5, 1.0])
+        B[4:6] = ["  updateFrequency %d" % uf, "  forceRange %r" % rng]
+        B += ["  hardForceRange off", "  forceConstant %r" % k0, "  rateMax %r" % mr]
+        M.update({"freq": uf // 2, "range0": rng, "hard": False, "k0": k0, "maxrate": mr})
+        tags[1] = "freq=%d" % uf
+        tags += ["soft-range", "k0", "range-outgrown"]
+    else:
+        if r.random() < 0.3:
+            B.append("  hardForceRange off")
+            M["hard"] = False
+            tags.append("soft-range")
+        if r.random() < 0.3:
+            k0 = r.choice([0.5, -0.25, 1.0])
+            B.append("  forceConstant %r" % k0)
+            M["k0"] = k0
+            tags.append("k0")
+        if r.random() < 0.3:
+            mr = r.choice([0.125, 0.03125])
+            B.append("  rateMax %r" % mr)
+            M["maxrate"] = mr
     B.append("}")
     return {"fam": "alb", "tags": tags, "sigtags": [], "natoms": 1, "setup": ["temperature %r" % temp], "config": cfg + B,
             "it0": first_step(r, [0, 0, 3]), "pos": walk(r, T, 1, lo=0.5, hi=4, bits=3), "model": M}
@@ -424,10 +438,20 @@ def gen_pabf(r, k, T):
     cfg = c["config"]
     i = cfg.index("abf {")
     cfg[i + 1:i + 1] = ["  integrate on", "  pABFintegrateFreq %d" % freq]
+    # most of the history inside the grid (a sample needs both variables inside), excursions of half a unit
+    M = c["model"]
+    cols = []
+    for i in range(2):
+        lo_i, up_i = M["lower"][i], M["lower"][i] + M["nx"][i] * M["width"][i]
+        cols.append(walk(r, T, 1, lo=lo_i - 0.5, hi=up_i + 0.5, bits=3, start=[V.dyadic(r, lo_i, up_i, bits=3)]))
+    c["pos"] = [[cols[0][t][0], cols[1][t][0]] for t in range(T)]
     c.pop("model", None)
     c["fam"] = "pabf"
     c["tags"] = ["pabf", "freq=%d" % freq] + c["tags"][1:]
     c["sigtags"] = []
+    # the PMF comes from a conjugate-gradient solver stopped at integrateTol (1e-6): a text state (14 digits of the
+    # gradients, divergence recomputed instead of updated) can change its iteration count
+    c["tol"] = 1e-5
     return c
 
 
